@@ -41,6 +41,7 @@ func run(c *vf.Ctx) {
 	v1Authenticate(c)
 	v2Direct(c)
 	v2Authenticate(c)
+	clockExploration(c)
 	histories(c)
 }
 
@@ -601,6 +602,48 @@ func v2Direct(c *vf.Ctx) {
 
 // ------------------------------------------------------------------ NTLMv2 through ntlm.CreateAuthenticateMessage
 
+// judgeV2Authenticate is the server's view of one AUTHENTICATE message built for case k.
+func judgeV2Authenticate(t *tally, k ac, msg []byte, desc func() string) {
+	a, perr := rn.ParseAuthenticate(msg)
+	ok := perr == nil && a.SigOK && a.Type == 3
+	var ntr, lmr, ub, db []byte
+	var us, ds string
+	if ok {
+		var o1, o2, o3, o4, o5, o6 bool
+		ntr, o1 = a.Nt.Slice(msg)
+		lmr, o2 = a.Lm.Slice(msg)
+		ub, o3 = a.User.Slice(msg)
+		db, o4 = a.Domain.Slice(msg)
+		us, o5 = decodeName(a.Flags, ub)
+		ds, o6 = decodeName(a.Flags, db)
+		ok = o1 && o2 && o3 && o4 && o5 && o6
+	}
+	if !t.check("C02/ntlm.CreateAuthenticateMessage/v2/responses-and-names-locatable", ok, func() string { return fmt.Sprintf("%s: message %s: %v", desc(), vf.HexS(msg), perr) }) {
+		return
+	}
+	// the verifier is the server: identity = the message's own UserName / DomainName fields
+	nt := rc.NT(k.pw)
+	vd := rn.VerifyNTLMv2(nt, us, ds, k.sc, ntr)
+	t.check("C02/ntlm.CreateAuthenticateMessage/v2/NtChallengeResponse/proof-verifies", vd.LenOK && vd.ProofOK, func() string {
+		return fmt.Sprintf("%s: NtChallengeResponse %s does not verify for the message's UserName %q / DomainName %q (want proof %x)", desc(), vf.HexS(ntr), us, ds, vd.Want)
+	})
+	t.check("C02/ntlm.CreateAuthenticateMessage/v2/NtChallengeResponse/blob-wellformed", vd.LenOK && vd.BlobErr == nil, func() string {
+		return fmt.Sprintf("%s: NtChallengeResponse %s: not an MS-NLMP 2.2.2.7 client blob: %v", desc(), vf.HexS(ntr), vd.BlobErr)
+	})
+	// LMv2: either a verifying LMv2 response or Z(24) (which MS-NLMP prescribes when the server sent MsvAvTimestamp)
+	t.check("C02/ntlm.CreateAuthenticateMessage/v2/LmChallengeResponse/lmv2-verifies-or-zero", rn.VerifyLMv2(nt, us, ds, k.sc, lmr) || bytes.Equal(lmr, make([]byte, 24)), func() string {
+		return fmt.Sprintf("%s: LmChallengeResponse %x is neither HMAC-MD5(NTOWFv2, server||client)||client for UserName %q / DomainName %q nor Z(24)", desc(), lmr, us, ds)
+	})
+}
+
+func enumCounter(n int) []byte {
+	b := make([]byte, n)
+	for i := range b {
+		b[i] = byte(i*7 + 1)
+	}
+	return b
+}
+
 func targetInfos() [][]byte {
 	u := rc.UTF16LE
 	ts := make([]byte, 8)
@@ -614,13 +657,14 @@ func targetInfos() [][]byte {
 	}
 }
 
+type ac struct {
+	user, dom, pw string
+	sc            []byte
+	flags         uint32
+	ti            []byte
+}
+
 func v2Authenticate(c *vf.Ctx) {
-	type ac struct {
-		user, dom, pw string
-		sc            []byte
-		flags         uint32
-		ti            []byte
-	}
 	var cases []ac
 	chs := chalLattice(false)
 	tis := targetInfos()
@@ -649,6 +693,12 @@ func v2Authenticate(c *vf.Ctx) {
 			cases = append(cases, ac{"User", "Domain", "Password", sc, base | cs | rn.FlagTargetInfo | rn.FlagVersion, tis[3]})
 		}
 	}
+	// every TargetInfo size: one AV pair whose value has 0..N bytes (the client blob is 32 bytes longer; any
+	// fixed-size scratch buffer, 255/256, 1024 or 4096 boundary lies inside the sweep)
+	for n := 0; n <= c.Pick(2300, 9000); n++ {
+		ti := rn.EncodeAvPairs([]rn.AvPair{{ID: 9, Value: enumCounter(n)}})
+		cases = append(cases, ac{"User", "Domain", "Password", chs[n%6], base | rn.FlagUnicode | rn.FlagTargetInfo, ti})
+	}
 	shards(c, len(cases), func(i int, t *tally) {
 		k := cases[i]
 		chm := &ntlm.ChallengeMessage{MessageType: 2, NegotiateFlags: k.flags, TargetInfo: k.ti}
@@ -666,36 +716,7 @@ func v2Authenticate(c *vf.Ctx) {
 		if !t.check("C02/ntlm.CreateAuthenticateMessage/v2/builds", err == nil, func() string { return fmt.Sprintf("%s: error %v", desc(), err) }) {
 			return
 		}
-		a, perr := rn.ParseAuthenticate(msg)
-		ok := perr == nil && a.SigOK && a.Type == 3
-		var ntr, lmr, ub, db []byte
-		var us, ds string
-		if ok {
-			var o1, o2, o3, o4, o5, o6 bool
-			ntr, o1 = a.Nt.Slice(msg)
-			lmr, o2 = a.Lm.Slice(msg)
-			ub, o3 = a.User.Slice(msg)
-			db, o4 = a.Domain.Slice(msg)
-			us, o5 = decodeName(a.Flags, ub)
-			ds, o6 = decodeName(a.Flags, db)
-			ok = o1 && o2 && o3 && o4 && o5 && o6
-		}
-		if !t.check("C02/ntlm.CreateAuthenticateMessage/v2/responses-and-names-locatable", ok, func() string { return fmt.Sprintf("%s: message %s: %v", desc(), vf.HexS(msg), perr) }) {
-			return
-		}
-		// the verifier is the server: identity = the message's own UserName / DomainName fields
-		nt := rc.NT(k.pw)
-		vd := rn.VerifyNTLMv2(nt, us, ds, k.sc, ntr)
-		t.check("C02/ntlm.CreateAuthenticateMessage/v2/NtChallengeResponse/proof-verifies", vd.LenOK && vd.ProofOK, func() string {
-			return fmt.Sprintf("%s: NtChallengeResponse %s does not verify for the message's UserName %q / DomainName %q (want proof %x)", desc(), vf.HexS(ntr), us, ds, vd.Want)
-		})
-		t.check("C02/ntlm.CreateAuthenticateMessage/v2/NtChallengeResponse/blob-wellformed", vd.LenOK && vd.BlobErr == nil, func() string {
-			return fmt.Sprintf("%s: NtChallengeResponse %s: not an MS-NLMP 2.2.2.7 client blob: %v", desc(), vf.HexS(ntr), vd.BlobErr)
-		})
-		// LMv2: either a verifying LMv2 response or Z(24) (which MS-NLMP prescribes when the server sent MsvAvTimestamp)
-		t.check("C02/ntlm.CreateAuthenticateMessage/v2/LmChallengeResponse/lmv2-verifies-or-zero", rn.VerifyLMv2(nt, us, ds, k.sc, lmr) || bytes.Equal(lmr, make([]byte, 24)), func() string {
-			return fmt.Sprintf("%s: LmChallengeResponse %x is neither HMAC-MD5(NTOWFv2, server||client)||client for UserName %q / DomainName %q nor Z(24)", desc(), lmr, us, ds)
-		})
+		judgeV2Authenticate(t, k, msg, desc)
 	})
 	c.Sample("ntlmv2-authenticate", map[string]any{"user": "Σς", "domain": "corp", "flags": "UNICODE|NTLM|ESS|TARGET_INFO", "target_info": hex.EncodeToString(tis[2])})
 }
